@@ -43,6 +43,19 @@ def gen(run):
                 for o in offs:
                     if I64MIN <= o <= I64MAX:
                         L.append("ts add %d %d %d %d" % (s, t, o, r))
+    # timestamps that are not normalised (ticks >= rate; the instant secs*rate + ticks still below 2^63): accepted offsets give the
+    # normalised sum, refused ones leave BOTH members as they were
+    for r in [1, 3, 1000, 10**6, 10**9]:
+        for s in [0, 5, 2**31]:
+            for t in [r, r + 1, 2 * r + 1, 10 * r + r // 2, 2500 * r]:
+                if s * r + t >= 2**63:
+                    continue
+                inst = s * r + t
+                for o in [I64MIN, I64MIN + 1, -inst - 1, -inst, -inst + 1, -1, 0, 1, r, I64MAX - inst, I64MAX - inst + 1, I64MAX]:
+                    if I64MIN <= o <= I64MAX:
+                        L.append("ts add %d %d %d %d" % (s, t, o, r))
+                L.append("ts add %d %d %d %d" % (s, t, 1, 0))
+                L.append("ts off %d %d %d %d %d" % (s, t, 0, 0, r))
     run.count("boundaries", len(L) - n0)
     # random
     n0 = len(L)
@@ -52,6 +65,9 @@ def gen(run):
             inst = rng.choice([rng.randrange(2**63), rng.randrange(2**40), rng.randrange(10**6)])
             return inst // r, inst % r
         a, b = rt(), rt()
+        if rng.random() < 0.2 and b[0] > 0:        # the same instant, not normalised
+            d = rng.randrange(1, min(b[0], 4000) + 1)
+            b = (b[0] - d, b[1] + d * r)
         k = rng.randrange(4)
         if k == 0:
             L.append("ts off %d %d %d %d %d" % (a + b + (r,)))
